@@ -148,6 +148,38 @@ pub fn run(ctx: &Ctx, rep: &mut Reporter) -> Json {
                     panic_violation(rep, case_idx, "panic", &p, Json::obj());
                 }
             }
+            // sub-mappings cut exactly at the halves of CRLF terminators
+            {
+                let crlf = to_crlf(&base);
+                let nls: Vec<usize> = crlf.iter().enumerate().filter(|(i, b)| **b == b'\n' && *i > 0 && crlf[*i - 1] == b'\r').map(|(i, _)| i).collect();
+                if !nls.is_empty() {
+                    let r = guarded(|| {
+                        for _ in 0..4 {
+                            let nl = *rng.pick(&nls);
+                            let (a0, b0) = match rng.below(4) {
+                                0 => (0, nl),          // ends between CR and LF
+                                1 => (nl, crlf.len()), // starts between CR and LF
+                                2 => (nl - 1, nl),     // just the CR
+                                _ => (nl, nl + 1),     // just the LF
+                            };
+                            let exp = proguard_uuid(&crlf[a0..b0]);
+                            let (s1, c1) = cur::uuid_section(&crlf, a0, b0, rng.chance(1, 2));
+                            rep.count("evaluations", 2);
+                            rep.count("section_uuid_checks_at_crlf_halves", 1);
+                            if s1 != exp || c1 != exp {
+                                let mut d = Json::obj();
+                                d.set("range", Json::s(format!("{a0}..{b0} of {} bytes (CRLF file, boundary at a line terminator half)", crlf.len())));
+                                d.set("expected", Json::s(exp));
+                                d.set("section_uuid", Json::s(s1));
+                                rep.violation(case_idx, "uuid-oracle", "uuid() of a section (or its clone) is not the v5 UUID of the section's bytes", d);
+                            }
+                        }
+                    });
+                    if let Err(p) = r {
+                        panic_violation(rep, case_idx, "panic", &p, Json::obj());
+                    }
+                }
+            }
             const PRE: &[&[u8]] = &[b"\xEF\xBB\xBF", b"\xFF\xFE", b"\xFE\xFF", b"\n", b"\r\n", b" ", b"\0", b"#\n", b"\t", b"\xEF\xBB", b"\xEF\xBB\xBF\xEF\xBB\xBF"];
             const SUF: &[&[u8]] = &[b"\n", b"\r\n", b" ", b"\0", b"\n\n", b"\x1a", b"\r", b"\t", b"\xEF\xBB\xBF"];
             let r = guarded(|| {
